@@ -17,7 +17,8 @@ CFG = {
     "race": True,
     "trivial_outputs": ["hang"],
     "timeout": {"quick": 600, "thorough": 3000},
-    "rule": "(feed user) 60 real core.TxPool instances with an unbuffered TxPreEvent subscriber that calls pool.Stats()/Pending() per event, fed fresh txs, single and "
+    "rule": "(scope) 16 gate-scheduled rounds with 2-3 overlapping Close() calls while one tracked member's Unsubscribe is held: once any Close returned every tracked "
+            "subscription must be unsubscribed (scope-close-early). (feed user) 60 real core.TxPool instances with an unbuffered TxPreEvent subscriber that calls pool.Stats()/Pending() per event, fed fresh txs, single and "
             "multiple replacements per batch; only a call that never returns (20 s watchdog) is judged (feed-user-deadlock). (TypeMux) 2500 rounds on the real event.TypeMux: 2-5 + 0-2 late receivers with type masks over int/string/float64, fast/slow/lazy/dead readers "
             "(a Post parks on a dead first receiver), 1-3 posters, Unsubscribe of first/middle/last receiver at random points, Stop during 1 in 4 rounds; judged by the "
             "Spec (duplicate, lost, late, api, deadlock). (Feed) scheduled runs of the real event.Feed: per round 1-5 initial + 0-2 late subscribers (channel capacity 0/1/2/4; fast, slow, lazy and "
